@@ -31,6 +31,10 @@ pub struct Case {
     pub reflink_never: bool,
     /// copy the directory `s` recursively into the existing directory `d` (else: single file to file)
     pub as_tree: bool,
+    /// options that must not matter for the bytes: bit0 --fsync, 1 --no-perms, 2 --no-timestamps,
+    /// 3 --backup=numbered, 4 --ownership, 5 -v
+    #[serde(default)]
+    pub extra: u8,
 }
 
 const DEFAULT_BLOCK: u64 = 1_000_000;
@@ -85,8 +89,14 @@ pub fn strategy() -> BoxedStrategy<Case> {
                         block = Some(1 << 20);
                     }
                 }
-                Case { files, parblock, workers, block, no_progress, reflink_never, as_tree }
+                Case { files, parblock, workers, block, no_progress, reflink_never, as_tree, extra: 0 }
             })
+        })
+        .boxed()
+        .prop_flat_map(|c| (Just(c), prop_oneof![3 => Just(0u8), 2 => 0u8..64]))
+        .prop_map(|(mut c, extra)| {
+            c.extra = extra;
+            c
         })
         .boxed()
 }
@@ -106,6 +116,11 @@ pub fn args_for(c: &Case) -> Vec<Vec<u8>> {
     }
     if c.reflink_never {
         a.push(b"--reflink=never".to_vec());
+    }
+    for (bit, flag) in [(0, "--fsync"), (1, "--no-perms"), (2, "--no-timestamps"), (3, "--backup=numbered"), (4, "--ownership"), (5, "-v")] {
+        if c.extra & (1 << bit) != 0 {
+            a.push(flag.as_bytes().to_vec());
+        }
     }
     if c.as_tree {
         a.push(b"-r".to_vec());
@@ -220,6 +235,9 @@ fn judge(c: &Case, rec: &mut Rec) -> Verdict {
             2..=4 => "w2-4",
             _ => "w5+",
         };
+        if c.extra != 0 {
+            rec.class(format!("extra-options|{}", driver));
+        }
         let key = format!(
             "{}|{}|{}|{}|{}|{}|{}",
             driver,
@@ -272,6 +290,7 @@ fn big_cases() -> Vec<Case> {
                 no_progress: true,
                 reflink_never: false,
                 as_tree: false,
+                extra: 0,
             });
         }
     }
